@@ -38,6 +38,7 @@ public:
 
     OwnThreadHandler<BaseHandler> &moveToOwnThread()
     {
+        QTLOGGER_VERIF_POINT("oth.move.entry");
         QMutexLocker locker(&m_mutex);
 
         if (m_thread)
@@ -69,42 +70,54 @@ public:
             delete worker;
         });
 
+        QTLOGGER_VERIF_POINT("oth.move.before_start");
         m_thread->start();
+        QTLOGGER_VERIF_POINT("oth.move.after_start");
 
         return *this;
     }
 
     void resetOwnThread()
     {
+        QTLOGGER_VERIF_POINT("oth.reset.entry");
         QMutexLocker locker(&m_mutex);
+        QTLOGGER_VERIF_POINT("oth.reset.locked");
 
         if (!m_thread)
             return;
 
         while (m_pendingCount.loadAcquire() > 0) {
             locker.unlock();
+            QTLOGGER_VERIF_POINT("oth.reset.drain");
             QThread::msleep(10);
             locker.relock();
         }
 
+        QTLOGGER_VERIF_POINT("oth.reset.before_quit");
         m_thread->quit();
 
         if (!m_thread->wait(3000)) {
             m_thread->terminate();
             m_thread->wait();
         }
+        QTLOGGER_VERIF_POINT("oth.reset.after_wait");
 
+        QTLOGGER_VERIF_POINT("oth.reset.before_clear");
         m_thread.clear();
         m_worker = nullptr;
     }
 
     bool process(LogMessage &lmsg) override
     {
+        QTLOGGER_VERIF_POINT("oth.process.entry");
         QMutexLocker locker(&m_mutex);
+        QTLOGGER_VERIF_POINT("oth.process.locked");
 
         if (m_worker) {
             m_pendingCount.fetchAndAddOrdered(1);
+            QTLOGGER_VERIF_POINT("oth.process.counted");
             QCoreApplication::postEvent(m_worker, new LogEvent(lmsg));
+            QTLOGGER_VERIF_POINT("oth.process.posted");
         } else {
             BaseHandler::process(lmsg);
         }
@@ -135,8 +148,11 @@ private:
             if (event->type() == LogEvent::type()) {
                 auto logEvent = dynamic_cast<LogEvent *>(event);
                 if (logEvent) {
+                    QTLOGGER_VERIF_POINT("oth.worker.entry");
                     m_handler->BaseHandler::process(logEvent->lmsg);
+                    QTLOGGER_VERIF_POINT("oth.worker.processed");
                     m_handler->m_pendingCount.fetchAndSubOrdered(1);
+                    QTLOGGER_VERIF_POINT("oth.worker.decremented");
                 }
             }
         }
